@@ -30,6 +30,47 @@ static void one_order(const int* order, int n)
     free(file); fclose(f); WR_destroy(&wr);
 }
 
+/* ---- C04: the real static LZ4IO_fwriteSparse / LZ4IO_fwriteSparseEnd against the Lean model (op 10) ---- */
+static u64 n_sparse, n_sparse_bytes, n_allzero_bufs, n_tail;
+static void fill_zero_rich(u8* b, size_t n)
+{
+    size_t i = 0; int style = (int)rndn(5);
+    if (style == 0) { memset(b, 0, n); return; }
+    while (i < n) {
+        size_t run; int zero = rndp(style == 1 ? 85 : 50);
+        switch (rndn(5)) { case 0: run = 1 + rndn(9); break; case 1: run = 8 * (1 + rndn(6)); break; case 2: run = 32768 - 9 + rndn(20); break; case 3: run = 1 + rndn(70000); break; default: run = 1 + rndn(300); }
+        if (run > n - i) run = n - i;
+        if (zero) memset(b + i, 0, run); else { size_t k; for (k = 0; k < run; k++) b[i + k] = (u8)(1 + rndn(255)); if (rndp(20)) b[i + rndn((u32)run)] = 0; }
+        i += run;
+    }
+}
+static void sparse_session(int thorough)
+{
+    int nb = (int)rndn(6), i; FILE* f = tmpfile(); unsigned skips = 0; rec_t r; static u8 lens[64], rets[64]; size_t total = 0; u8* all; u8* file; long fsz; size_t maxb = thorough ? 300000 : 140000;
+    u8* bufs[8]; size_t sz[8];
+    if (!f) exit(3);
+    for (i = 0; i < nb; i++) {
+        switch (rndn(7)) { case 0: sz[i] = rndn(40); break; case 1: sz[i] = 8 * rndn(20); break; case 2: sz[i] = 32768 + rndn(17) - 8; break; case 3: sz[i] = 65536 + rndn(9); break; case 4: sz[i] = rndn((u32)maxb); break; case 5: sz[i] = 0; break; default: sz[i] = rndn(5000); }
+        bufs[i] = (u8*)malloc(sz[i] ? sz[i] : 1); fill_zero_rich(bufs[i], sz[i]); total += sz[i];
+        if (sz[i] & 7) n_tail++;
+    }
+    all = xalloc(total + 1); total = 0;
+    for (i = 0; i < nb; i++) {
+        skips = LZ4IO_fwriteSparse(f, bufs[i], sz[i], 1 + (int)rndn(2), skips); n_calls++;
+        lens[4*i] = (u8)sz[i]; lens[4*i+1] = (u8)(sz[i] >> 8); lens[4*i+2] = (u8)(sz[i] >> 16); lens[4*i+3] = (u8)(sz[i] >> 24);
+        rets[4*i] = (u8)skips; rets[4*i+1] = (u8)(skips >> 8); rets[4*i+2] = (u8)(skips >> 16); rets[4*i+3] = (u8)(skips >> 24);
+        memcpy(all + total, bufs[i], sz[i]); total += sz[i];
+        { size_t k, z = 1; for (k = 0; k < sz[i]; k++) if (bufs[i][k]) { z = 0; break; } if (z && sz[i]) n_allzero_bufs++; }
+    }
+    LZ4IO_fwriteSparseEnd(f, skips); n_calls++;
+    fflush(f); fseek(f, 0, SEEK_END); fsz = ftell(f); rewind(f); file = xalloc((size_t)fsz + 1); if (fread(file, 1, (size_t)fsz, f) != (size_t)fsz) exit(3);
+    rec_begin(&r, 10); rec_int(&r, nb); rec_bytes(&r, lens, (size_t)(4 * nb)); rec_bytes(&r, all, total); rec_bytes(&r, rets, (size_t)(4 * nb)); rec_bytes(&r, file, (size_t)fsz);
+    if ((size_t)fsz != total || (total && memcmp(file, all, total) != 0)) c_fail(&r, "sparse_output_differs_from_plain");
+    rec_write(&r); n_sparse++; n_sparse_bytes += total;
+    for (i = 0; i < nb; i++) free(bufs[i]);
+    free(all); free(file); fclose(f);
+}
+
 static void permute(int* a, int k, int n) { int i; if (k == n) { one_order(a, n); return; } for (i = k; i < n; i++) { int t = a[k]; a[k] = a[i]; a[i] = t; permute(a, k + 1, n); t = a[k]; a[k] = a[i]; a[i] = t; } }
 
 int main(int argc, char** argv)
@@ -38,6 +79,13 @@ int main(int argc, char** argv)
     if (argc < 6) return 2;
     thorough = !strcmp(argv[2], "thorough"); seed = strtoull(argv[3], 0, 10);
     harness_init(argv[4], argv[5], seed);
+    if (!strcmp(argv[1], "c04")) {
+        for (i = 0; i < (thorough ? 4000 : 500); i++) sparse_session(thorough);
+        harness_done();
+        stat_u("calls", n_calls); stat_u("sparse_sessions", n_sparse); stat_u("sparse_bytes", n_sparse_bytes); stat_u("all_zero_buffers", n_allzero_bufs); stat_u("buffers_with_tail", n_tail);
+        stat_u("records", g_nrecords); stat_u("cfails", (u64)g_cfails);
+        return g_cfails ? 1 : 0;
+    }
     for (n = 0; n <= (thorough ? 7 : 6); n++) { for (i = 0; i < n; i++) a[i] = i; permute(a, 0, n); }
     for (i = 0; i < (thorough ? 3000 : 300); i++) {
         int j; n = 1 + (int)rndn(thorough ? 300 : 120);
